@@ -130,6 +130,7 @@ def check(repo: Repo, rep, tier):
     flags_not_approval(repo, rep)
     ci_detect(repo, rep)
     xdist_worker(repo, rep)
+    approval_complete(repo, rep)
     stale_bindings(repo, rep, {"config", "_current"}, "e.g. a copied state/config object keeps the flags of import time, so approval decisions are taken on stale data")
 
 
@@ -294,6 +295,12 @@ def guard_atoms(repo: Repo, f: Func, cfg: CFG):
         ch = attr_chain(e) if isinstance(e, ast.Attribute) else None
         if ch == ["state()", "active"]:
             out["active"].append((c, "T"))
+        if isinstance(e, ast.Compare) and len(e.ops) == 1 and isinstance(e.left, ast.Attribute) and attr_chain(e.left) == ["state()", "active"] and isinstance(e.comparators[0], ast.Constant) and isinstance(e.comparators[0].value, bool):
+            # `state().active is False` / `== True` ...
+            same = isinstance(e.ops[0], (ast.Is, ast.Eq))
+            if isinstance(e.ops[0], (ast.Is, ast.Eq, ast.IsNot, ast.NotEq)):
+                truthy_when_T = e.comparators[0].value if same else not e.comparators[0].value
+                out["active"].append((c, "T" if truthy_when_T else "F"))
         m = membership(c.ast, cfg, c)
         if m and same_item(m[0], "short-report"):
             out["short-report"].append((c, "F" if m[1] == "T" else "T"))
@@ -606,8 +613,25 @@ def configure(repo: Repo, rep):
             if isinstance(t, ast.Attribute) and attr_chain(t) == ["state()", "flags"] and isinstance(n.ast.value, ast.Name):
                 flagvar = n.ast.value.id
     if flagvar is None:
-        rep.undecided("R-CONFIGURE", "`state().flags = <name>` not found")
+        rep.violation("R-CONFIGURE", f, f.node, "pytest_configure never stores the session's flags in state().flags: what the user approved on the command line / in the default flags is invisible to the session-finish gate (nothing approved is applied)", construct="flags-not-stored")
         return
+    # every normal path decides state().active, and an enabled path sets update_flags
+    ups_all = [n for n in cfg.stmts(ast.Assign) for t in n.ast.targets if isinstance(t, ast.Attribute) and attr_chain(t) == ["state()", "update_flags"]]
+    if acts and not must_reach(cfg, cfg.entry, acts, [cfg.ret], skip_labels=("exc",)):
+        rep.violation("R-CONFIGURE", f, f.node, "a normal path through pytest_configure never assigns state().active: `--inline-snapshot=disable` (or an earlier session's setting) is not honoured on that path", path_to(cfg, cfg.ret, blocked_nodes=acts) or "", construct="active-unassigned")
+    elif acts:
+        rep.ok("R-CONFIGURE", f, acts[0].ast, "state().active is decided on every normal path")
+    if ups_all and not must_reach(cfg, cfg.entry, ups_all + off, [cfg.ret], skip_labels=("exc",)):
+        rep.violation("R-CONFIGURE", f, f.node, "an enabled path through pytest_configure leaves state().update_flags at its default: the categories given by the user are not enabled for the comparisons", construct="update_flags-unassigned")
+    # the defaults come from the project's configuration: read_config(...) is called before the default flags are used
+    rc = [n for n in cfg.live for c in node_calls(n) if norm(c.func).endswith("read_config")]
+    fl = [n for n in cfg.stmts(ast.Assign) for t in n.ast.targets if isinstance(t, ast.Attribute) and attr_chain(t) == ["state()", "flags"]]
+    if not rc:
+        rep.violation("R-CONFIGURE", f, f.node, "pytest_configure never reads the [tool.inline-snapshot] configuration: default-flags / shortcuts of pyproject.toml are not honoured as approvals", construct="no-read_config")
+    elif fl and not all(nodes_dominate(cfg, rc, x) for x in fl):
+        rep.violation("R-CONFIGURE", f, fl[0].ast, "state().flags can be assigned before / without read_config(): the pyproject defaults are ignored on that path", construct="read_config-late")
+    else:
+        rep.ok("R-CONFIGURE", f, rc[0].ast, "read_config() precedes the use of the default flags")
     lf = (flagvar,)
     rev_edges = [(c, m[1]) for c in cfg.conds() for m in [membership(c.ast, cfg, c, lf)] if m and same_item(m[0], "review")]
     dis_edges_absent = [(c, "F" if m[1] == "T" else "T") for c in cfg.conds() for m in [membership(c.ast, cfg, c, lf)] if m and same_item(m[0], "disable")]
@@ -1091,3 +1115,216 @@ def xdist_worker(repo: Repo, rep):
             rep.ok("R-XDIST-WORKER", f, f.node, f"{f.qualname}() reads a worker-side indicator (body outside the evaluated fragment)")
         else:
             rep.violation("R-XDIST-WORKER", f, f.node, f"{f.qualname}() reads neither config.workerinput nor PYTEST_XDIST_WORKER: xdist workers are not recognised", construct="worker-undetected")
+
+
+# ------------------------------------------------------------------ completeness: approved => applied
+
+
+def _absent_membership(e: ast.AST, cfg: CFG, node: Node, flagvar: str) -> Optional[str]:
+    """If `e` tests membership of the loop's category (or of a constant category) in the session flags, the edge
+    label on which the category is ABSENT.  Forms: `flag in state().flags`, `"update" in state().flags`,
+    `{..., flag} & state().flags` (empty intersection => absent)."""
+    if isinstance(e, ast.Compare) and len(e.ops) == 1 and isinstance(e.ops[0], (ast.In, ast.NotIn)) and is_state_flags(e.comparators[0], cfg, node):
+        return "F" if isinstance(e.ops[0], ast.In) else "T"
+    if isinstance(e, ast.BinOp) and isinstance(e.op, ast.BitAnd):
+        for a, b in ((e.left, e.right), (e.right, e.left)):
+            if is_state_flags(b, cfg, node) and isinstance(a, ast.Set) and any(isinstance(x, ast.Name) and x.id == flagvar for x in a.elts):
+                return "F"
+    return None
+
+
+def approval_complete(repo: Repo, rep):
+    rep.rule(
+        "R-APPROVAL-COMPLETE",
+        "the other half of the gate - what the user approved IS applied.  In pytest_sessionfinish: (a) the approval predicate returns a truthy constant on "
+        "the `flag in state().flags` edge and the Confirm.ask answer on the 'review' edge; (b) on the approved edge the category's changes are added to the "
+        "list that is written before the next category is looked at; (c) inside the category loop an iteration can by-pass the approval test only on an edge "
+        "that means 'nothing pending' (emptiness of a list / no difference) or 'this category is absent from the session flags'; (d) on the non-empty edge "
+        "of the approved list every normal path reaches apply_all(<list>, <recorder>) and then <recorder>.fix_all(); (e) a `return` in front of the category "
+        "loop is taken only on a disabled edge (xdist / CI / unsupported implementation / inactive / short-report)",
+    )
+    f = repo.func("pytest_plugin.py::pytest_sessionfinish")
+    cfg = cfg_of(f)
+    cg = callgraph(repo)
+    notes: list = []
+    loops = [n for n in cfg.live if n.kind == "for"]
+    # the category loop: the one whose body holds an approval condition for its own loop variable
+    cat = None
+    for l in loops:
+        if not isinstance(l.ast.target, ast.Name):
+            continue
+        v = l.ast.target.id
+        body = reach(cfg, [b for b, lab in l.succ if lab == "iter"], blocked_nodes=[l])
+        edges = [(c, lab) for c, lab in approval_edges(repo, f, cfg, "$" + v, notes) if c in body]
+        if edges:
+            cat = (l, v, body, edges)
+    if cat is None:
+        rep.violation("R-APPROVAL-COMPLETE", f, f.node, "no loop over the categories tests the user's approval: approved categories are never applied", construct="no-approval-test")
+        return
+    head, flagvar, body, aedges = cat
+    # (a) the helper is complete
+    for c, lab in aedges:
+        e = c.ast
+        if isinstance(e, ast.Call):
+            tg, _ = cg.call_targets(f, e)
+            for g in tg:
+                gcfg = cfg_of(g)
+                p = g.params[0] if g.params else None
+                direct = [(cc, m[1]) for cc in gcfg.conds() for m in [membership(cc.ast, gcfg, cc)] if m and p and same_item(m[0], "$" + p)]
+                rev = [(cc, m[1]) for cc in gcfg.conds() for m in [membership(cc.ast, gcfg, cc)] if m and same_item(m[0], "review")]
+                cli_ok = rev_ok = False
+                for r in gcfg.stmts(ast.Return):
+                    v = r.ast.value
+                    if v is None:
+                        continue
+                    if isinstance(v, ast.Constant) and v.value and direct and edges_dominate(gcfg, direct, r):
+                        cli_ok = True
+                    if isinstance(v, ast.Compare) and direct and edges_dominate(gcfg, direct, r):
+                        cli_ok = True
+                    if isinstance(v, ast.Name):
+                        vals = [def_value(d, v.id) for d in reaching_defs(gcfg, r, v.id)]
+                        if vals and all(isinstance(x, ast.Call) and norm(x.func).endswith("ask") for x in vals) and rev and edges_dominate(gcfg, rev, r):
+                            rev_ok = True
+                    if isinstance(v, ast.Call) and norm(v.func).endswith("ask") and rev and edges_dominate(gcfg, rev, r):
+                        rev_ok = True
+                    if isinstance(v, ast.Compare) and not direct:
+                        m = membership(v, gcfg, r)
+                        if m and p and same_item(m[0], "$" + p):
+                            cli_ok = True
+                if cli_ok:
+                    rep.ok("R-APPROVAL-COMPLETE", g, g.node, f"{g.qualname}: a category of the session flags is approved")
+                else:
+                    rep.violation("R-APPROVAL-COMPLETE", g, g.node, f"{g.qualname} never answers truthy on the `{p} in state().flags` edge: a category given with --inline-snapshot / the default flags is not applied", construct=f"{g.qualname}:cli")
+                if rev_ok:
+                    rep.ok("R-APPROVAL-COMPLETE", g, g.node, f"{g.qualname}: the review answer is returned")
+                else:
+                    rep.violation("R-APPROVAL-COMPLETE", g, g.node, f"{g.qualname} never returns the Confirm.ask answer on the 'review' edge: answering y in review mode applies nothing", construct=f"{g.qualname}:review")
+    # (b) approved => list grows before the next iteration
+    def _from_category(n, v):
+        if isinstance(v, ast.Name):
+            v = resolve_alias(cfg, n, v)
+        return any(isinstance(x, ast.Subscript) and isinstance(x.slice, ast.Name) and x.slice.id == flagvar for x in ast.walk(v))
+
+    grows = [n for n in body if n.kind == "stmt" and isinstance(n.ast, ast.AugAssign) and isinstance(n.ast.target, ast.Name) and _from_category(n, n.ast.value)]
+    grows += [
+        n
+        for n in body
+        if n.kind == "stmt"
+        and isinstance(n.ast, ast.Assign)
+        and isinstance(n.ast.targets[0], ast.Name)
+        and isinstance(n.ast.value, ast.BinOp)
+        and isinstance(n.ast.value.left, ast.Name)
+        and n.ast.value.left.id == n.ast.targets[0].id
+        and _from_category(n, n.ast.value.right)
+    ]
+    grows += [n for n in body for cc in node_calls(n) if isinstance(cc.func, ast.Attribute) and cc.func.attr in ("extend", "append") and isinstance(cc.func.value, ast.Name) and any(_from_category(n, a) for a in cc.args)]
+    lists = set()
+    for n in grows:
+        if isinstance(n.ast, ast.AugAssign) and isinstance(n.ast.target, ast.Name):
+            lists.add(n.ast.target.id)
+        elif isinstance(n.ast, ast.Assign) and isinstance(n.ast.targets[0], ast.Name):
+            lists.add(n.ast.targets[0].id)
+        else:
+            for cc in node_calls(n):
+                if isinstance(cc.func, ast.Attribute) and isinstance(cc.func.value, ast.Name):
+                    lists.add(cc.func.value.id)
+    for c, lab in aedges:
+        starts = [b for b, l in c.succ if l == lab]
+        r = reach(cfg, starts, blocked_nodes=grows, skip_labels=("exc",))
+        if head in r and not any(s in grows for s in starts):
+            rep.violation("R-APPROVAL-COMPLETE", f, c.ast, f"after `{short(c.ast, 40)}` answered yes a path starts the next category without adding `changes[{flagvar}]` to the list that is written", construct="approved-not-collected")
+        else:
+            rep.ok("R-APPROVAL-COMPLETE", f, c.ast, "approved changes are collected on every path")
+    # (c) by-passing the approval test
+    anodes = [c for c, _ in aedges]
+    n_skip = 0
+    for c in [x for x in body if x.kind == "cond" and x not in anodes]:
+        # only conditions in front of the approval test
+        if not any(a in reach(cfg, [b for b, _ in c.succ], blocked_nodes=[head]) for a in anodes):
+            continue
+        for b, lab in c.succ:
+            if lab not in ("T", "F"):
+                continue
+            r = reach(cfg, [b], blocked_nodes=anodes, skip_labels=("exc",))
+            other = [bb for bb, ll in c.succ if ll in ("T", "F") and ll != lab]
+            r_other = reach(cfg, other, blocked_nodes=[head], skip_labels=("exc",))
+            bypass = (head in r or b is head) and not any(a in reach(cfg, [b], blocked_nodes=[head], skip_labels=("exc",)) for a in anodes)
+            if not bypass:
+                continue
+            n_skip += 1
+            e = c.ast
+            absent = _absent_membership(e, cfg, c, flagvar)
+            nothing = (isinstance(e, (ast.Name, ast.Subscript)) and lab == "F") or (isinstance(e, ast.Call) and norm(e.func) in ("len", "any") and lab == "F")
+            if isinstance(e, ast.Compare) and len(e.ops) == 1 and isinstance(e.left, ast.Call) and norm(e.left.func) == "len" and isinstance(e.comparators[0], ast.Constant) and e.comparators[0].value in (0, 1):
+                k, op = e.comparators[0].value, e.ops[0]
+                empty_on_T = (k == 0 and isinstance(op, (ast.Eq, ast.LtE))) or (k == 1 and isinstance(op, ast.Lt))
+                empty_on_F = (k == 0 and isinstance(op, (ast.NotEq, ast.Gt))) or (k == 1 and isinstance(op, ast.GtE))
+                nothing = (empty_on_T and lab == "T") or (empty_on_F and lab == "F")
+            if absent == lab or nothing:
+                rep.ok("R-APPROVAL-COMPLETE", f, e, f"the approval test is by-passed on `{short(e, 40)}`->{lab}: " + ("category absent from the session flags" if absent == lab else "nothing pending"))
+            else:
+                rep.violation(
+                    "R-APPROVAL-COMPLETE",
+                    f,
+                    e,
+                    f"an iteration of the category loop skips the approval test on the edge `{short(e, 50)}` -> {lab}, which means neither 'nothing pending' nor 'category not in the session flags': "
+                    "a category the user approved is silently not applied",
+                    construct=f"skip:{short(e, 40)}:{lab}",
+                )
+    rep.count("bypass_edges", n_skip)
+    # (d) non-empty approved list => apply_all + fix_all
+    def _reaches(t, key, depth=3, seen=None):
+        seen = seen if seen is not None else set()
+        if t.key == key:
+            return True
+        if depth == 0 or t.key in seen:
+            return False
+        seen.add(t.key)
+        return any(_reaches(g, key, depth - 1, seen) for g in cg.callees(t))
+
+    fixes = [n for n in cfg.live for cc in node_calls(n) if any(_reaches(t, "_rewrite_code.py::ChangeRecorder.fix_all") for t in cg.call_targets(f, cc)[0])]
+    applies = [n for n in cfg.live for cc in node_calls(n) if any(_reaches(t, "_change.py::apply_all") for t in cg.call_targets(f, cc)[0]) and cc.args and isinstance(cc.args[0], ast.Name) and cc.args[0].id in lists and n not in body]
+    after = [c for c in cfg.conds() if c not in body and isinstance(c.ast, ast.Name) and c.ast.id in lists]
+    if not fixes:
+        rep.violation("R-APPROVAL-COMPLETE", f, f.node, "pytest_sessionfinish never calls fix_all(): approved changes are never written", construct="no-fix_all")
+    elif not applies:
+        rep.violation("R-APPROVAL-COMPLETE", f, f.node, f"the list of approved changes ({sorted(lists)}) is never handed to apply_all after the category loop", construct="no-apply_all")
+    else:
+        starts = [b for c in after for b, l in c.succ if l == "T"] or [b for b, l in head.succ if l == "done"]
+        r1 = reach(cfg, starts, blocked_nodes=applies, skip_labels=("exc",))
+        ok1 = cfg.ret not in r1 or any(s in applies for s in starts)
+        r2 = reach(cfg, [b for a in applies for b, l in a.succ if l != "exc"], blocked_nodes=fixes, skip_labels=("exc",))
+        ok2 = cfg.ret not in r2
+        if ok1 and ok2:
+            rep.ok("R-APPROVAL-COMPLETE", f, fixes[0].ast, "non-empty approved list => apply_all => fix_all on every normal path")
+        else:
+            rep.violation(
+                "R-APPROVAL-COMPLETE",
+                f,
+                (after[0].ast if after else fixes[0].ast),
+                "with a non-empty list of approved changes a normal path reaches the end of the hook without " + ("apply_all(<approved>, <recorder>)" if not ok1 else "<recorder>.fix_all()") + ": the approved changes are reported as applied but never written",
+                construct="approved-not-written",
+            )
+    # (e) early returns in front of the category loop
+    atoms = guard_atoms(repo, f, cfg)
+    disabled = []
+    for g in ("xdist", "ci", "impl", "active", "short-report"):
+        for c, enabled in atoms[g]:
+            disabled.append((c, "T" if enabled == "F" else "F"))
+    n_ret = 0
+    for r in cfg.stmts(ast.Return):
+        if head not in reach(cfg, [cfg.entry], blocked_nodes=[r]):
+            continue  # behind the loop
+        if head in reach(cfg, [r]):
+            continue
+        if r in body:
+            continue
+        # is this return in front of the loop (some path entry -> r avoids the loop)?
+        if r not in reach(cfg, [cfg.entry], blocked_nodes=[head]):
+            continue
+        n_ret += 1
+        if disabled and edges_dominate(cfg, disabled, r):
+            rep.ok("R-APPROVAL-COMPLETE", f, r.ast, "early return only for a disabled session")
+        else:
+            rep.violation("R-APPROVAL-COMPLETE", f, r.ast, "pytest_sessionfinish returns in front of the category loop on a path where nothing disables the session: approved changes are never applied", path_to(cfg, r, blocked_edges=disabled) or "", construct="early-return-enabled")
+    rep.count("early_returns", n_ret)
